@@ -43,10 +43,10 @@ TAGS = {
 }
 CORR = (1, 2, 3, 4, 5, 6, 7, 8, 9, 10)
 ORACLE = (11, 12, 13, 14, 15, 16, 17, 18, 19, 20, 21)
-F_DERIV, F_INTKEY, F_DEPORDER, F_SREPR, F_EQDOSING = (
-    'C12-DERIVATIVES-TEXT', 'C12-JSON-INTKEY', 'C12-HASH-DEPVAR-ORDER', 'C12-SREPR-DISTRIBUTES', 'C12-EQ-DOSING-ORDER')
-# fixed in /repo (cee2988, ddb8814, 30e26dc, e582408): C12-JSON-TUPLE, C12-HASH-ORDER, C12-GENERIC-READ,
-# C12-CATEGORIES-MAPPING -- their witnesses stay in regress/C12; a recurrence is a VIOLATION
+F_DERIV, F_INTKEY, F_SREPR, F_EQDOSING = (
+    'C12-DERIVATIVES-TEXT', 'C12-JSON-INTKEY', 'C12-SREPR-DISTRIBUTES', 'C12-EQ-DOSING-ORDER')
+# fixed in /repo (cee2988, ddb8814, eb87ce1, 30e26dc, e582408): C12-JSON-TUPLE, C12-HASH-ORDER, C12-HASH-DEPVAR-ORDER,
+# C12-GENERIC-READ, C12-CATEGORIES-MAPPING -- their witnesses stay in regress/C12; a recurrence is a VIOLATION
 
 
 # ------------------------------------------------------------------ implementation side helpers
@@ -709,8 +709,6 @@ def classify(ctx, spec, tags, pair=False):
         elif t in (16, 19):
             # the generic model code / file is the JSON way back of the whole model
             fine = 12 in tags and excused_json()
-        elif t == 13:
-            fine = 204 in tags and not (tags & {5, 8, 9, 10}) and known(F_DEPORDER)
         elif t == 14:
             # `==` says different although t, compartments and flows agree (its dosing_compartments depend on the
             # graph order), the order-blind key says same
@@ -995,7 +993,6 @@ def run(ctx):
         'pairs_equal': sum(1 for i in pinfos if i['eq'] is True), 'pairs_unequal': sum(1 for i in pinfos if i['eq'] is False),
         'pairs_eq_raises': sum(1 for i in pinfos if i['eq'] is None),
         'pairs_equal_but_text_differs': sum(1 for v in pverdicts if 13 in v),
-        'pairs_order_differs': sum(1 for v in pverdicts if 204 in v),
         'pairs_eq_depends_on_dosing_order': sum(1 for v in pverdicts if 209 in v),
         'model_pair_relations': {w: sum(1 for p in mpairs if p.get('why') == w) for w in sorted({p.get('why', 'regress') for p in mpairs})},
         'malformed_dicts': len(mverdicts), 'malformed_impl_raised': sum(1 for i in minfos if i['error']),
